@@ -169,6 +169,17 @@ func runAtomic(r *run) error {
 		if last := obs[len(obs)-1]; !strings.HasSuffix(last, "|none") {
 			r.oracleFail(id, "pending file left behind after recvFile1 returned: "+clipStr(last, 100), map[string]any{"good": good, "cut": cut, "err": fmt.Sprint(rerr)})
 		}
+		// the stream ends inside the checksum header: nothing may be created
+		if i%10 == 0 {
+			before := observeDir(dir, "f")
+			hb := []int{g.intn(16)}
+			sr := &stepReader{wire: w.Bytes(), bound: hb, cut: 0, at: func(int) {}}
+			verifhook.ReceiverRecvStream(seed, dir, "f", 0o100644, 1_000_000_000, sr, verifhook.ReceiverOpts{PreservePerms: true, PreserveTimes: true})
+			r.count("cut-inside-header")
+			if after := observeDir(dir, "f"); after != before {
+				r.oracleFail(id+"-head", "stream ended inside the header: destination directory changed: "+clipStr(before, 60)+" -> "+clipStr(after, 60), map[string]any{"cut_offset": hb[0]})
+			}
+		}
 		os.RemoveAll(dir)
 	}
 	return nil
